@@ -16,7 +16,7 @@ func init() {
 	register(&Property{
 		Meta: report.Meta{
 			Property:    "C19",
-			Explanation: "Must-pass-through and who-may-call rules on the encrypted-metadata code: secretbox.Seal/Open are called only from EncryptWithKey/DecryptStringWithKey; Seal is reached only after validateKey succeeded and after io.ReadFull(crypto/rand.Reader, nonce[:]) succeeded on the very nonce array that is passed to Seal and prefixed to the output, with the key array filled by copy from the validated key and the message being the parameter; decryption validates the key, requires len >= 24 (= nonce length), opens data[24:] with nonce data[:24] and returns the plaintext only when Open reports ok; validateKey rejects nil, length != 32 and all-zero keys (decision table); AddEncrypted hands the plaintext to EncryptWithKey only and stores its checked result; the getters decrypt GetBytes(key); the four WithEncryptedMeta* options pass their own key/value/encryption-key parameters to AddEncrypted. Confidentiality and authentication themselves are the contract of NaCl secretbox. (R7) no returned bytes are views into memory given back to a sync.Pool. Every failing exit of GetEncryptedString / GetEncryptedBytes is selected by the non-nil error of GetBytes, DecryptStringWithKey or GetEncryptedBytes.",
+			Explanation: "Must-pass-through and who-may-call rules on the encrypted-metadata code: secretbox.Seal/Open are called only from EncryptWithKey/DecryptStringWithKey; Seal is reached only after validateKey succeeded and after io.ReadFull(crypto/rand.Reader, nonce[:]) succeeded on the very nonce array that is passed to Seal and prefixed to the output, with the key array filled by copy from the validated key and the message being the parameter; decryption validates the key, requires len >= 24 (= nonce length), opens data[24:] with nonce data[:24] and returns the plaintext only when Open reports ok; validateKey rejects nil, length != 32 and all-zero keys (decision table); AddEncrypted hands the plaintext to EncryptWithKey only and stores its checked result; the getters decrypt GetBytes(key); the four WithEncryptedMeta* options pass their own key/value/encryption-key parameters to AddEncrypted. Confidentiality and authentication themselves are the contract of NaCl secretbox. (R7) no returned bytes are views into memory given back to a sync.Pool. Every failing exit of GetEncryptedString / GetEncryptedBytes is selected by the non-nil error of GetBytes, DecryptStringWithKey or GetEncryptedBytes. (R2, R3) the key array handed to secretbox.Seal / Open has no element store and is passed to no call other than copy / Seal / Open (an assignment of the whole array is allowed).",
 			Assumptions: []string{"NaCl secretbox provides confidentiality and authentication", "crypto/rand.Reader is a CSPRNG"},
 			Trusted:     []string{"golang.org/x/crypto/nacl/secretbox", "crypto/rand", "golang.org/x/tools/go/ssa v0.29.0"},
 			NotDecided:  []string{"cryptographic strength", "round-trip equality of the plaintext (runtime value)"},
@@ -133,6 +133,11 @@ func runC19(x *Ctx) {
 					ok = false
 					detail += "key array is not filled by copy(secretKey[:], key parameter)\n"
 				}
+				// and by nothing else: a byte of the key masked or set afterwards makes several keys open one box
+				if w := otherWritersOpt(a, map[string]bool{"builtin.copy": true, sbox + "Seal": true, sbox + "Open": true}, true); w != "" {
+					ok = false
+					detail += "key array is also written by: " + w + "\n"
+				}
 			} else {
 				ok = false
 				detail += "Seal key is " + key.String() + "\n"
@@ -177,6 +182,12 @@ func runC19(x *Ctx) {
 			if !copiedFrom(v, o.Args[3].String(), "arg1") {
 				ok = false
 				detail += "key array is not a copy of the key parameter\n"
+			}
+			if a, isA := o.Args[3].Val.(*ssa.Alloc); isA {
+				if w := otherWritersOpt(a, map[string]bool{"builtin.copy": true, sbox + "Seal": true, sbox + "Open": true}, true); w != "" {
+					ok = false
+					detail += "key array is also written by: " + w + "\n"
+				}
 			}
 		}
 		x.C.Obl("C19.R3", "open-operands:DecryptStringWithKey", x.pos(f), "Open(nil, data[24:], &nonce = data[:24], &key = copy of the validated key); its plaintext result is what is returned", ok, detail)
@@ -378,6 +389,12 @@ func arrLen(a *ssa.Alloc) int64 {
 
 // otherWriters lists stores / calls (other than the allowed callees) that may write array a.
 func otherWriters(a *ssa.Alloc, allowed map[string]bool) string {
+	return otherWritersOpt(a, allowed, false)
+}
+
+// otherWritersOpt: with wholeOK an assignment of a whole value to the variable (the result of a helper that returns
+// the filled array) is not counted; stores into its elements always are.
+func otherWritersOpt(a *ssa.Alloc, allowed map[string]bool, wholeOK bool) string {
 	out := ""
 	var visit func(v ssa.Value)
 	seen := map[ssa.Value]bool{}
@@ -389,7 +406,7 @@ func otherWriters(a *ssa.Alloc, allowed map[string]bool) string {
 		for _, r := range *v.Referrers() {
 			switch r := r.(type) {
 			case *ssa.Store:
-				if r.Addr == v {
+				if r.Addr == v && !(wholeOK && v == ssa.Value(a)) {
 					out += "store;"
 				}
 			case *ssa.Slice:
